@@ -80,7 +80,7 @@ def scan_forbidden():
                 continue
             p = os.path.join(root, f)
             text = open(p, encoding='utf-8').read()
-            text_nc = strip_coq_comments(text)
+            text_nc = re.sub(r'"[^"]*"', '""', strip_coq_comments(text))   # string literals cannot declare anything
             in_section = 0
             for ln, line in enumerate(text_nc.split('\n'), 1):
                 if re.match(r'\s*Section\b', line):
